@@ -26,6 +26,20 @@ CHECKS = {
   text="Projects of 2-5 files in several directories (Python and JavaScript mixed in one run; recurring function names, class methods, nested functions, decorators -> attrs, top-level code, files named as in the repo's default entry.yaml; every method embeds one parameter-source -> sink flow) x rule sets {empty, initialiser only, by method name, by language incl. absent languages, by unit name, by unit path, by attribute, overlapping (also split over a second *-entry.yaml), the repo default}. Clauses: start set == rule-selected set (own restatement of the matching rule, evaluated over the project plus the extern mock units), nothing started twice, file/loader/console agree; every selected method has its own analysed frame even if nothing calls it; the reported flows are exactly the embedded flows of the methods reachable from what was started. Quick 40 projects x 6 rule sets, thorough 500 x 8.",
   note="Trusted: the restated matching rule in checks/c20.py (written from the settings format, attribute names chosen so that substring matching cannot matter), the generator's call structure (validated against CPython for the Python files). No defect was found on this workload.",
   design="DESIGN.md §C20"),
+ "C08": dict(
+  engine="runner",
+  technique="runtime monitoring with an executable oracle: generated Python programs are executed by CPython under a tracing shim (per executed assignment: value / allocation line / member maps) and lian's abstract value of the same definition is read from the persisted P3 tables; wrappers on compute_two_states / strict_eval and exec audit events decide 'literal text is only data'; metamorphic literal replacement",
+  category="exploration",
+  text="G-values programs (int/str constants incl. strings with quotes, backslashes, operator characters and digit-only content; constant arithmetic, concatenation, repetition; allocation, field/element reads and writes, aliasing by copy and by parameter, helper calls and returns, branches on an opaque decision vector, loops run 0 or 1 times). Per executed definition: lian's value set contains the constant by value, or an object state of the same allocation site whose member maps cover recursively, or an explicit unknown state; the share of constant definitions covered by value must stay above a floor (non-vacuity). Literal-as-data: every text handed to an evaluator is compared with the operand data; replacing a hostile literal by a benign one of equal length must leave unaffected definitions, the sequence of analysed frames and the per-statement visit counts unchanged; folds predicted above 10^6 bits must not be entered. Quick ~200 programs (~6k definitions, ~2.3k folds, ~190 metamorphic pairs), thorough ~3000 programs (~100k definitions).",
+  note="Trusted: CPython, the tracing shim, the (file, line) -> GIR statement join and the reader of s2space_p3/stmt_status_p3 (validated against the live objects: persisted rows equal the last live save). Python frontend only. Loops are run at most once (quantifier). Failures inside loops are attributed to the bounded-visits mechanism only when the same definition is covered once the worklist scheduling of proposed/C08-worklist-order.diff is patched in at run time; open known findings: cover:bounded-visits-in-loops, cover:member-of-member:parameter, cover:member-of-member:field-write-through-parameter.",
+  design="DESIGN.md §C08"),
+ "C09": dict(
+  engine="runner",
+  technique="runtime monitoring with an exact oracle: every decision vector of generated loop-free Python programs is executed by CPython, the set of concrete values at each probe point is collected and compared for EQUALITY with lian's abstract value set of the probed argument read from the persisted P3 tables",
+  category="exploration",
+  text="Loop-free G-values programs (int constants, one allocation per variable, aliasing by assignment, distinct field names, branches on d[i] with <= 6 decisions so that all 2^k vectors are feasible, helper functions called from several sites with different arguments, default / keyword arguments, constant binary operations). At every probe (a call of an unresolved function with the probed value) lian's set must equal the exact set over all vectors reaching the probe: an overwritten value retained, a value of another field / object / call site, a missing value or an unknown state is a difference. Features counted separately (overwrite, branch-join, field-vs-field, object-vs-object, call-site, nested call, callee field read/write, binary fold, ...). Quick 150 programs (~1.8k probes), thorough ~4000 programs (~47k probes).",
+  note="Trusted: CPython, the probe shim, the reader of the P3 tables. Python frontend only. Derived probes of an already reported variable are not reported again. Open known finding: via-callee-field-write:extra (a field overwritten inside a callee keeps its previous value in the caller).",
+  design="DESIGN.md §C09"),
  "C05": dict(
   engine="runner",
   technique="differential runtime monitoring with a language-runtime oracle: generated scope/binding programs run under CPython and node (unique constants reveal which declaration each executed use read; symtable cross-checks) and through real lang+P1 runs; the symbol_id in semantic_p1/s2space_p1 is compared per occurrence with the declaration rows of the scope/file the runtime selected; metamorphic alpha-renaming relation on the P1 tables in 7 languages",
